@@ -23,7 +23,7 @@ class HistPlugin(BasePlugin):
         self.imports = self.imports % self.extra_import
 
     def first_ops(self, rng):
-        return []
+        return [{'op': 'clock', 't': 0}]
 
     def gen_case(self, rng, i, tier):
         pre5 = rng.random() < self.pre5_rate
